@@ -11,6 +11,7 @@ macro_rules! dispatch {
 			"C01" => Some($f::<props::c01::C01>($($arg),*)),
 			"C02" => Some($f::<props::c02::C02>($($arg),*)),
 			"C03" => Some($f::<props::c03::C03>($($arg),*)),
+			"C04" => Some($f::<props::c04::C04>($($arg),*)),
 			"C05" => Some($f::<props::c05::C05>($($arg),*)),
 			"C06" => Some($f::<props::c06::C06>($($arg),*)),
 			"C09" => Some($f::<props::c09::C09>($($arg),*)),
